@@ -156,6 +156,9 @@ type Clause struct {
 	Expr  ast.Expr
 	Line  string // file:line of the contract text
 	Label string
+	// Opaque: an ensures clause that callers only assume when they "reveal"
+	// one of its tags (keeps heavy facts out of queries that do not need them).
+	Opaque bool
 }
 
 type LoopContract struct {
@@ -193,6 +196,7 @@ type FuncContract struct {
 	LoopTypeInvs []*Clause
 	ParamNames []string
 	InvParams []string
+	Reveal    map[string]bool // tags of opaque callee ensures this function's proofs use
 }
 
 func loadProgram(repo string) (*Program, error) {
@@ -384,7 +388,7 @@ func representable(t types.Type, depth int) bool {
 
 var clauseKeywords = map[string]bool{"func": true, "requires": true, "ensures": true, "loop": true, "arith": true,
 	"safety": true, "inline": true, "pure": true, "trusted": true, "skip": true, "ghost": true, "lemma": true,
-	"modifies": true, "note": true, "opaque": true, "sweep": true, "typeinv": true, "noinv": true, "valueinv": true, "params": true, "noloopinv": true, "define": true}
+	"modifies": true, "note": true, "opaque": true, "sweep": true, "typeinv": true, "noinv": true, "valueinv": true, "params": true, "noloopinv": true, "define": true, "reveal": true}
 
 func (p *Program) parseContracts(pk *packages.Package) error {
 	for i, f := range pk.Syntax {
@@ -506,6 +510,10 @@ func (p *Program) parseContractFile(pkgName string, f *ast.File, fname string, e
 			switch word {
 			case "requires", "ensures":
 				cl := &Clause{Kind: word, Line: where}
+				if w2, r2 := splitWord(rest); w2 == "opaque" && word == "ensures" {
+					cl.Opaque = true
+					rest = r2
+				}
 				cl.Tags, cl.Text = splitTags(rest)
 				for _, t := range cl.Tags {
 					cur.Props[propOfTag(t)] = true
@@ -589,6 +597,13 @@ func (p *Program) parseContractFile(pkgName string, f *ast.File, fname string, e
 				}
 			case "noinv":
 				cur.NoInv = true
+			case "reveal":
+				if cur.Reveal == nil {
+					cur.Reveal = map[string]bool{}
+				}
+				for _, w := range strings.Fields(rest) {
+					cur.Reveal[w] = true
+				}
 			case "noloopinv":
 				cur.NoLoopInv = true
 			case "params":
